@@ -15,6 +15,7 @@ RULE = (
     'rows (with/without duration, NaN rows, int/str IDs) for ProblemModellingController.get_dosing_regimens. '
     'Non-trivial: multi-dose regimen with start != 0 or a boundary final time, or indirect route. Distinct = '
     '(mode, topology, route, regimen class, final-time class).')
+RULE += (' ' + "Added: routes into state variables of the 'global' component, a route that was first set to another variable / flag (also within the same component) and then changed; data mode: the log-posterior of every individual is compared with the closed form under that individual's own dose events (individuals without doses after dosed ones).")
 ASSUMPTIONS = [
     'reference integrator vf/simshim.py stands in for myokit.Simulation; pacing semantics come from myokit.PacingSystem '
     "(myokit's own pure-Python implementation)",
